@@ -26,20 +26,17 @@ impl ConfigFile {
 
         manifest_dir_path.pop();
 
-        let Some((before, i18n_cfg)) = cfg_file_str.split_once("[package.metadata.leptos-i18n]")
-        else {
+        // the manifest is read as TOML, so that only the actual `[package.metadata.leptos-i18n]` table is taken,
+        // whatever its spelling, and not a mention of it in a comment or a string.
+        let cfg = serde::de::DeserializeSeed::deserialize(
+            SectionSeed(&["package", "metadata", "leptos-i18n"]),
+            toml::de::Deserializer::new(&cfg_file_str),
+        )
+        .map_err(Error::ConfigFileDeser)?;
+
+        let Some(mut cfg) = cfg else {
             return Err(Error::ConfigNotPresent.into());
         };
-
-        // this is to have the correct line number in the reported error.
-        let cfg_file_whitespaced = before
-            .chars()
-            .filter(|c| *c == '\n')
-            .chain(i18n_cfg.chars())
-            .collect::<String>();
-
-        let mut cfg: ConfigFile =
-            toml::de::from_str(&cfg_file_whitespaced).map_err(Error::ConfigFileDeser)?;
 
         if let Some(i) = cfg.locales.iter().position(|l| l == &cfg.default) {
             // put default as first locale
@@ -87,6 +84,50 @@ impl ConfigFile {
 // -----------------------------------------
 
 struct CfgFileVisitor;
+
+/// Deserialize the `ConfigFile` found by following the given path of tables, skipping everything else.
+struct SectionSeed(&'static [&'static str]);
+
+impl<'de> serde::de::DeserializeSeed<'de> for SectionSeed {
+    type Value = Option<ConfigFile>;
+
+    fn deserialize<D>(self, deserializer: D) -> std::result::Result<Self::Value, D::Error>
+    where
+        D: serde::Deserializer<'de>,
+    {
+        if self.0.is_empty() {
+            serde::Deserialize::deserialize(deserializer).map(Some)
+        } else {
+            deserializer.deserialize_map(self)
+        }
+    }
+}
+
+impl<'de> serde::de::Visitor<'de> for SectionSeed {
+    type Value = Option<ConfigFile>;
+
+    fn visit_map<A>(self, mut map: A) -> std::result::Result<Self::Value, A::Error>
+    where
+        A: serde::de::MapAccess<'de>,
+    {
+        let mut found = None;
+        while let Some(key) = map.next_key::<String>()? {
+            match self.0.split_first() {
+                Some((name, rest)) if *name == key => {
+                    found = map.next_value_seed(SectionSeed(rest))?;
+                }
+                _ => {
+                    map.next_value::<serde::de::IgnoredAny>()?;
+                }
+            }
+        }
+        Ok(found)
+    }
+
+    fn expecting(&self, formatter: &mut std::fmt::Formatter) -> std::fmt::Result {
+        write!(formatter, "a table")
+    }
+}
 
 impl<'de> serde::Deserialize<'de> for ConfigFile {
     fn deserialize<D>(deserializer: D) -> std::result::Result<Self, D::Error>
